@@ -149,8 +149,9 @@ func RunBackends(c *sim.Ctx) {
 		maxOps = 200
 	}
 	nOps := knobInt(c, "ops", 3, maxOps)
-	c.ProbeDecl("read_of_empty_value", "scan_with_several_results", "persistent_backend_reopened")
+	c.ProbeDecl("read_of_empty_value", "scan_with_several_results", "persistent_backend_reopened", "nested_table_with_sibling")
 	defer cleanupScratch()
+	nestedViaNewTable := knobInt(c, "nested_tables_via_NewTable", 0, 1) == 1
 
 	type stack struct {
 		sub       *subject
@@ -183,7 +184,17 @@ func RunBackends(c *sim.Ctx) {
 			for d := range ws {
 				switch ws[d] {
 				case 0:
-					cur = table.New(cur, ps[d])
+					// prefixes as applications have them: sliced out of larger buffers (spare capacity)
+					pb := make([]byte, len(ps[d]), len(ps[d])+8)
+					copy(pb, ps[d])
+					if pt, ok := cur.(*table.Table); ok && nestedViaNewTable {
+						// nested tables the way the library offers them, with a sibling created afterwards (never used)
+						cur = pt.NewTable(pb)
+						_ = pt.NewTable([]byte{0x5a, 0xa5})
+						c.Probe("nested_table_with_sibling")
+					} else {
+						cur = table.New(cur, pb)
+					}
 				case 1:
 					f := flushable.Wrap(cur)
 					flushables = append(flushables, f)
